@@ -186,10 +186,15 @@ func Twin(s string, hashCode bool) string {
 			}
 			return h
 		}
-		// change two adjacent characters (c, d) into (c+1, d-31): same polynomial value
+		// change two adjacent characters (c, d) into (c-1, d+31) or (c+1, d-31): same polynomial value
 		b := []byte(s)
 		for i := 0; i+1 < len(b); i++ {
-			if b[i] < 126 && b[i+1] >= 32+31 {
+			if b[i] > 0x22 && b[i+1]+31 <= 0x7e {
+				b[i]--
+				b[i+1] += 31
+				break
+			}
+			if b[i] < 0x7e && b[i+1] >= 0x21+31 {
 				b[i]++
 				b[i+1] -= 31
 				break
